@@ -41,7 +41,7 @@ CLAIMED = {
     "C06": dict(
         text="Lexer.tla is the normative lexer over code points (string literals and the two escapes, integer / hex / float / "
              "three-piece float / boolean / identifier classification with Int64 range checks); TLC enumerates all words over a "
-             "10-character alphabet in 7 embeddings and all string bodies over 10 characters in 3 quotings, checks "
+             "10-character alphabet in 12 embeddings (incl. signs glued to the word) and all string bodies over 11 characters in 3 quotings, checks "
              "Lex(quote(t)) = String(t) and token-text concatenation as theorems, and every source is replayed against "
              "build_operator_tree. One recorded known finding (KF-1: inf / infinity / nan).",
         note=TRUST + " The value of a float-looking word is Rust's f64::from_str (primgen).",
@@ -56,13 +56,13 @@ CLAIMED = {
         text="Eval.tla defines evaluation as a post-order, left-to-right walk threading (context, call log) that stops at "
              "the first error; TLC enumerates all programs of up to three atoms (assignments, recording user functions, "
              "failing sub-expressions) from three contexts, checks FirstErrorWins on the specification and emits the triple "
-             "(result, context afterwards, ordered call log) that the real crate must reproduce.",
+             "(result, context afterwards, ordered call log) that the real crate must reproduce; executions of the repository's own tests (guarded hooks) are validated against the same evaluator with the tests' closures as oracles.",
         note=TRUST, tech="TLC-enumerated programs against the TLA+ evaluator, comparing result + context + call log", ref="5 C08"),
     "C09": dict(
         text="The resolution rule is CallFunction in Eval.tla; MC_Resolve enumerates the complete finite configuration matrix "
-             "(51 names x context kinds x user function x variable x 5 call forms) with theorems (variables never influence "
+             "(58 names incl. near misses of builtin names x context kinds x user function x variable x 8 call forms) with theorems (variables never influence "
              "resolution, a context function is called exactly once with exactly the argument); MC_Ctx adds clone / "
-             "clear_functions / toggling histories. One recorded known finding (KF-2).",
+             "clear_functions / toggling histories, and recorded histories re-evaluate precompiled trees while functions are bound, re-bound and cleared. One recorded known finding (KF-2).",
         note=TRUST, tech="TLC enumeration of the complete resolution matrix + conformance with recording functions", ref="5 C09"),
     "C10": dict(
         text="Builtins.tla is written from the README table; BuiltinAllowed gives the declarative outcome set (min/max = any "
@@ -87,7 +87,7 @@ CLAIMED = {
         note=TRUST, tech="TLC-enumerated token sequences classified by the spec + rejection conformance", ref="5 C13"),
     "C14": dict(
         text="Grammar.Occurrences gives the pre-order identifier list with classes; for every WF sequence the ten "
-             "iterators of the real tree must equal its filters.",
+             "iterators of the real tree - each consumed in six ways (collect, next, next + for_each, fold, count / last, nth) - must equal its filters.",
         note=TRUST, tech="TLC-enumerated trees + iterator conformance", ref="5 C14"),
     "C15": dict(
         text="Type level: rust/sendsync holds Send + Sync assertions for the eight public types (decided by the type checker, a "
